@@ -51,17 +51,17 @@ var (
 // which run after the informer store reports synced) reflects every ResourceClaim of the store. A production
 // scheduler has this race once, at start-up; the harness starts a cache per cycle and must not turn it into
 // a source of findings.
-func waitDRASynced(c cache.Cache, s *Store, warm bool) {
+func waitDRASynced(c cache.Cache, s *Store, warm bool) bool {
 	want := map[string]bool{}
 	for _, rc := range s.Claims() {
 		want[rc.Namespace+"/"+rc.Name] = rc.Status.Allocation != nil
 	}
 	if len(want) == 0 {
-		return
+		return true
 	}
 	k8sPlugins := c.InternalK8sPlugins()
 	if k8sPlugins == nil || k8sPlugins.FrameworkHandle == nil || k8sPlugins.FrameworkHandle.SharedDRAManager() == nil {
-		return
+		return true
 	}
 	mgr := k8sPlugins.FrameworkHandle.SharedDRAManager()
 	if warm {
@@ -74,20 +74,22 @@ func waitDRASynced(c cache.Cache, s *Store, warm bool) {
 		name := fmt.Sprintf("verif-sync-%d", s.serial)
 		sentinel := &resourceapi.ResourceClaim{ObjectMeta: metav1.ObjectMeta{Name: name, Namespace: Namespace, ResourceVersion: "1", UID: types.UID(name)}}
 		if err := s.Kube.Tracker().Add(sentinel); err != nil {
-			return
+			return false
 		}
 		seen := func() bool {
 			_, err := mgr.ResourceClaims().Get(Namespace, name)
 			return err == nil
 		}
-		for i := 0; i < 300000 && !seen(); i++ {
+		deadline := time.Now().Add(2 * time.Minute)
+		for !seen() && time.Now().Before(deadline) {
 			time.Sleep(time.Millisecond)
 		}
+		sawIt := seen()
 		_ = s.Kube.Tracker().Delete(claimGVR, Namespace, name)
-		for i := 0; i < 300000 && seen(); i++ {
+		for seen() && time.Now().Before(deadline) {
 			time.Sleep(time.Millisecond)
 		}
-		return
+		return sawIt && !seen()
 	}
 	for i := 0; i < 50000; i++ {
 		ok := false
@@ -107,12 +109,13 @@ func waitDRASynced(c cache.Cache, s *Store, warm bool) {
 					n = len(l.Items)
 				}
 				if len(sl) == n {
-					return
+					return true
 				}
 			}
 		}
 		time.Sleep(2 * time.Millisecond)
 	}
+	return false
 }
 
 // processCPU is the CPU time (user + system) this process has consumed so far.
@@ -511,6 +514,7 @@ type CycleRecord struct {
 	Duration          time.Duration
 	ActionCalls       map[string][2]int // action -> [first call index, end)
 	Model             *World            // the world model at the start of this cycle when API mutations preceded it (nil = the world as generated)
+	NotCaughtUpWhy    string
 	NotCaughtUp       bool              // persistent mode: the informers did not catch up with the store in time (treated like Starved)
 	Shares            map[string]QShare // per queue, as reported by the session after OpenSession (Options.CaptureShares)
 }
@@ -616,8 +620,8 @@ func RunCycle(s *Store, cfg *Config, sc *CycleScript, idx int, opt *Options) *Cy
 		warm := s.Persistent && s.proc != nil
 		if s.Persistent && s.proc != nil {
 			c = s.proc.cache
-			if !waitCaughtUp(c, s, cfg.Pool) {
-				rec.Starved, rec.NotCaughtUp = true, true
+			if ok, why := waitCaughtUp(c, s, cfg.Pool); !ok {
+				rec.Starved, rec.NotCaughtUp, rec.NotCaughtUpWhy = true, true, why
 				return
 			}
 		} else {
@@ -636,7 +640,10 @@ func RunCycle(s *Store, cfg *Config, sc *CycleScript, idx int, opt *Options) *Cy
 			time.Sleep(3 * time.Millisecond)
 			c.WaitForCacheSync(runStop)
 		}
-		waitDRASynced(c, s, warm)
+		if !waitDRASynced(c, s, warm) {
+			rec.Starved, rec.NotCaughtUp, rec.NotCaughtUpWhy = true, true, "dra-claim-tracker"
+			return
+		}
 		close(begun) // cache ready: from here on CPU time is the scheduler's own
 		rc = &recordingCache{Cache: c, failEvictCall: sc.FailEvictCall}
 		ssn, err := framework.OpenSession(rc, schedConf, params, fmt.Sprintf("c%d", idx), mux)
